@@ -3,6 +3,7 @@ correspondence of the binary64 recurrences (model/DualAvg.v) with DualAverage / 
 loop; implementation-side monotonicity and bound audits."""
 import json
 import math
+from fractions import Fraction
 import struct
 
 from vlib import *  # noqa
@@ -69,6 +70,125 @@ def model_expr(c, o):
 
 def nanbits(b):
     return (b & 0x7FF0000000000000) == 0x7FF0000000000000 and (b & 0x000FFFFFFFFFFFFF) != 0
+
+
+# ------------------------------------------------------------------------------------------------
+# the initial step-size search (Strategy::init) against model/StepSize.v `search`
+# ------------------------------------------------------------------------------------------------
+def _pot(c, x):
+    u, g = 0.0, []
+    for xi, p, m in zip(x, c["prec"], c["mu"]):
+        d = xi - m
+        u += p * d * d / 2 + c.get("quartic", 0.0) * d ** 4 / 4
+        g.append(-p * d - c.get("quartic", 0.0) * d ** 3)
+    return u, g
+
+
+def _trial(c, x0, v0, e):
+    """one Euclidean leapfrog of signed size e under the diagonal transformation of the case:
+    (end position, acceptance statistic or None for a divergence)"""
+    sd, mean = c["stds"], c["mean"]
+    u0, g0 = _pot(c, x0)
+    q0 = [(a - m) / s_ for a, m, s_ in zip(x0, mean, sd)]
+    tg0 = [s_ * g for s_, g in zip(sd, g0)]
+    vh = [v + e / 2 * t for v, t in zip(v0, tg0)]
+    q1 = [q + e * v for q, v in zip(q0, vh)]
+    x1 = [m + s_ * q for m, s_, q in zip(mean, sd, q1)]
+    u1, g1 = _pot(c, x1)
+    v1 = [v + e / 2 * s_ * g for v, s_, g in zip(vh, sd, g1)]
+    err = (u1 + 0.5 * sum(v * v for v in v1)) - (u0 + 0.5 * sum(v * v for v in v0))
+    if err != err or err > 1000.0 or abs(err) == float("inf"):
+        return x1, None
+    return x1, min(1.0, math.exp(-err))
+
+
+def search_tie(ctx, quick, stats):
+    ok, out = build_harness(["orbit"])
+    ctx.oblig("harness-build-orbit", ok, out[-2000:])
+    if not ok:
+        return 0
+    r = ctx.rnd()
+    cases = []
+    for cid in range(120 if quick else 1500):
+        dim = r.choice([1, 2, 3, 5])
+        cases.append({"id": cid, "dim": dim, "kind": "euclidean",
+                      "prec": [r.choice([0.25, 1.0, 4.0, 100.0]) for _ in range(dim)], "mu": [r.randint(-8, 8) / 8 for _ in range(dim)],
+                      "stds": [r.choice([0.5, 1.0, 2.0]) for _ in range(dim)], "mean": [r.randint(-8, 8) / 8 for _ in range(dim)],
+                      "init": [r.randint(-48, 48) / 32 for _ in range(dim)], "momentum": [(r.randint(-64, 64) or 5) / 32 for _ in range(dim)],
+                      "quartic": r.choice([0.0, 0.0, 0.25]), "seed": 1, "words": [],
+                      "search": {"initial_step": r.choice([0.001, 0.02, 0.1, 0.5, 1.0, 2.2, 3.0, 8.0]),
+                                 "target": r.choice([0.6, 0.8, 0.9, 0.95]), "method": r.choice(["dual", "adam"])}})
+    outs, errs = run_harness_parallel("orbit", cases)
+    ctx.oblig("harness-run-search", not errs and len(outs) == len(cases), "\n".join(errs)[:1500])
+    exprs, meta = [], []
+    nb = 0
+    went = {"up": 0, "down": 0, "keep": 0}
+    for c in cases:
+        o = outs.get(c["id"])
+        if not o or "search" not in o:
+            continue
+        sr = o["search"]
+        if sr["result"] != "ok" or len(sr["evals"]) < 2:
+            continue
+        ini, tgt = c["search"]["initial_step"], c["search"]["target"]
+        x0, v0 = c["init"], c["momentum"]
+        _, a0 = _trial(c, x0, v0, ini)
+        fwd = a0 is not None and a0 > tgt
+        sign = 1.0 if fwd else -1.0
+        table = []
+        for k in range(0, 45):
+            st = ini * (2.0 ** k if fwd else 2.0 ** (-k))
+            _, a = _trial(c, x0, v0, sign * st)
+            table.append((st, a))
+        # near ties between an acceptance and the target cannot be decided in floating point
+        if any(a is not None and abs(a - tgt) < 1e-9 for _, a in table[:len(sr["evals"])]) or (a0 is not None and abs(a0 - tgt) < 1e-9):
+            continue
+        ql = lambda x: "(%d # %d)" % (Fraction(x).numerator, Fraction(x).denominator)
+        tcoq = coq_list(["(%s, %s)" % (ql(st), ("Some %s" % ql(a)) if a is not None else "None") for st, a in table])
+        exprs.append("eval_search %s %s %s %s" % (tcoq, ql(ini), ql(tgt), ("(Some %s)" % ql(a0)) if a0 is not None else "None"))
+        meta.append((c, sr, fwd, table))
+        # implementation-side: the step size installed by the search is the one of its LAST trial
+        step_after = b2f(sr["step_after"])
+        last_x = [b2f(b) for b in sr["evals"][-1]["x"]]
+        if len(sr["evals"]) >= 3 and step_after != ini:
+            want_x, _ = _trial(c, x0, v0, sign * step_after)
+            if any(abs(a - b_) > 1e-9 * (1 + abs(a)) for a, b_ in zip(want_x, last_x)):
+                nb += 1
+                if nb <= 3:
+                    violation(ctx, "implementation violates C07: the initial search installed step size %r, but its last trial step was a different one (the installed step was never tried, so it does not bracket the target %r)" % (step_after, tgt),
+                              {"case": c, "evaluations": len(sr["evals"])}, found_input=True)
+    vals, err = coq_eval_shards("C07_search", "From NutsV Require Import model.StepSize.\nFrom Coq Require Import QArith ZArith List.\nImport ListNotations.\n",
+                                exprs, shard_size=max(1, (len(exprs) + 15) // 16))
+    ctx.oblig("model-eval-search", err is None, err or "")
+    nd = 0
+    if not err:
+        for (c, sr, fwd, table), m in zip(meta, vals):
+            ctx.evaluations += 1
+            ctx.nontrivial.add(("search", c["id"]))
+            step_after = b2f(sr["step_after"])
+            diffs = []
+            if m[0] == 0:
+                went["keep"] += 1
+                if step_after != c["search"]["initial_step"]:
+                    diffs.append("model keeps the initial step %r, implementation installed %r" % (c["search"]["initial_step"], step_after))
+            else:
+                went["up" if fwd else "down"] += 1
+                ms = Fraction(m[1], m[2])
+                if Fraction(step_after) != ms:
+                    diffs.append("step size found: model %r implementation %r" % (float(ms), step_after))
+                if len(sr["evals"]) != m[3] + 3:
+                    diffs.append("density evaluations: model %d implementation %d" % (m[3] + 3, len(sr["evals"])))
+                if sr.get("adapt") and abs(b2f(sr["adapt"]["v"][0]) - math.log(float(ms))) > 1e-12:
+                    diffs.append("the estimator was not re-created at the found step size (log step %r)" % b2f(sr["adapt"]["v"][0]))
+            if diffs:
+                nd += 1
+                if nd <= 3:
+                    violation(ctx, "model/implementation correspondence broken (step-size search): %s" % diffs[0],
+                              {"case": c, "differences": diffs, "correspondence": "model/StepSize.v search2 vs stepsize::Strategy::init"}, found_input=False)
+    ctx.oblig("correspondence-search", nd == 0, "%d cases differ" % nd)
+    stats["search_cases"] = len(meta)
+    stats["search_direction"] = went
+    return nb
 
 
 def run(ctx):
@@ -184,6 +304,11 @@ def run(ctx):
             if r.random() < 0.5:
                 c["region_fault"] = [r.choice([0.05, 0.5]), r.choice(["rec", "nan_logp", "huge_energy"])]
             cl.append(c)
+        # both controllers steer an easy target to the acceptance target (the dual-averaging and
+        # the Adam arm of the early AND the late estimator update)
+        for k in range(8 if quick else 40):
+            cl.append({"id": len(cl), "preset": "diag_nuts", "num_tune": 300, "num_draws": 100, "dim": r.choice([5, 8, 10]),
+                       "seed": r.getrandbits(32), "maxdepth": 6, "method": ["dual", "adam"][k % 2], "jitter": None, "steer": True})
         couts, cerrs = run_harness_parallel("schedule", cl, timeout=1500)
         ctx.oblig("harness-run-closed-loop", not cerrs and len(couts) == len(cl), "\n".join(cerrs)[:1500])
         first_step_div = 0
@@ -215,8 +340,21 @@ def run(ctx):
                     if nbad <= 3:
                         violation(ctx, "implementation violates C07: %s" % badv, {"case": c, "draw": d["draw"]}, found_input=True)
                     break
+        for c in cl:
+            o = couts.get(c["id"])
+            if not c.get("steer") or not o or "draws" not in o:
+                continue
+            post = [d for d in o["draws"] if "draw" in d and d["draw"] >= c["num_tune"] and d.get("mean_tree_accept") is not None]
+            if len(post) >= 50:
+                acc = sum(b2f(d["mean_tree_accept"]) for d in post) / len(post)
+                stats.setdefault("steered_acceptance", []).append(round(acc, 3))
+                if not (0.6 <= acc <= 0.95):
+                    nbad += 1
+                    violation(ctx, "implementation violates C07: after 300 warmup draws on a %d-dimensional standard normal the %s controller runs at mean acceptance %.3f (target 0.8), step size %r" % (
+                        c["dim"], c["method"], acc, b2f(post[-1]["step_size"])), {"case": c}, found_input=True)
         stats["closed_loop_cases"] = len(cl)
         stats["closed_loop_first_step_divergences"] = first_step_div
+    nbad += search_tie(ctx, quick, stats)
     ctx.oblig("impl-audit-C07", nbad == 0, "%d cases" % nbad)
     ctx.notes["input_distribution"] = stats
 
